@@ -172,6 +172,7 @@ CORPUS = {
         N("packing-by-multiplication", T, [("        val = val << 8 | ord(char)", "        val = val * 256 + ord(char)")]),
     ],
     "C09": [
+        M("float-carried-by-a-register-printed-raw", T, [("            expr = self.value.code_expr\n            if isinstance(expr, float):\n                # a variable that stands for a literal: spell it like any other number\n                return IC10Operand(expr).to_string()\n            return expr\n", "            return self.value.code_expr\n")], ["R09.d"]),
         M("unary-minus-one-operand", G, [("data.add_end(IC10(opcode, [0, opname], sym))", "data.add_end(IC10(opcode, [opname], sym))")], ["R09.a"]),
         M("nonexistent-opcode", G, [('data.add(IC10("seq", [index, i], t))', 'data.add(IC10("seql", [index, i], t))')], ["R09.a"]),
         M("bool-not-normalised", T, [("        elif isinstance(value, bool):\n            value = int(value)\n", "")], ["R09.b"]),
